@@ -204,6 +204,13 @@ class Extractor:
             return ("call", "sqrt", tuple(args))
         if q in ("builtins.max", "builtins.min") and len(args) >= 2 and not e.keywords:
             return ("op", FUNC_ALIASES[q], tuple(args))     # commutative: operands are aligned, not ordered
+        if q in ("builtins.abs", "math.fabs") and len(args) == 1:
+            x = args[0]
+            if x[0] == "op" and x[1] == "+" and len(x[2]) == 2 and sum(1 for y in x[2] if y[0] == "neg") == 1:
+                pos = [y for y in x[2] if y[0] != "neg"][0]
+                ng = [y for y in x[2] if y[0] == "neg"][0][1]
+                lo, hi = sorted([pos, ng], key=repr)     # |a - b| == |b - a|
+                return ("call", "abs", (("op", "+", (lo, ("neg", hi))),))
         if q in FUNC_ALIASES:
             return ("call", FUNC_ALIASES[q], tuple(args))
         if q is not None:
@@ -346,6 +353,9 @@ def binop(op, a, b):
             for n2 in nums[1:]:
                 acc = fold(op, acc, n2)
             nums = [acc]
+        ident = 1 if op == "*" else 0
+        if nums and nums[0][1] == ident and rest and not isinstance(nums[0][1], bool):
+            nums = []          # x * 1, x + 0
         items = nums + rest
         if len(items) == 1:
             return items[0]
@@ -578,8 +588,16 @@ def compare(code, ref, policy: Policy) -> List[Mismatch]:
 
     def wcost(ms, a=None, b=None):
         c = 0
+        seen = set()
         for m in ms:
-            c += 10 * 10 if m.kind == "shape" else WEIGHT[m.kind]
+            if m.kind == "shape":
+                c += 10 ** 6
+                continue
+            k = (m.kind, m.code, m.ref)
+            if k in seen:
+                continue        # the same leaf difference reached through several shared sub-expressions counts once
+            seen.add(k)
+            c += WEIGHT[m.kind]
         return c
 
     def go(a: int, b: int) -> List[Mismatch]:
@@ -741,7 +759,7 @@ def compare(code, ref, policy: Policy) -> List[Mismatch]:
 
 def extract_function(project: Project, fi: FuncInfo):
     """(return expression, final env, nested-function extractor access)."""
-    ex = Extractor(project, fi, fi.node, Scope(project, fi))
+    ex = Extractor(project, fi, fi.node, Scope(project, fi), local_prefix=fi.qualname + ".<locals>.")
     env, ret = ex.run()
     return ex, env, ret
 
